@@ -21,13 +21,14 @@ type histCfg struct {
 }
 
 type reporter struct {
-	c      *verdict.Ctx
-	hist   int
-	cfg    histCfg
-	plans  []cutPlan // crash outcomes applied on the path to the current directory
-	weak   bool      // synced-region corruption class: only "never return what was not written" is demanded
-	dirty  bool      // something was reported on this path
-	stream string    // PRNG stream of the case ("" = "history")
+	c        *verdict.Ctx
+	hist     int
+	cfg      histCfg
+	plans    []cutPlan // crash outcomes applied on the path to the current directory
+	weak     bool      // synced-region corruption class: only "never return what was not written" is demanded
+	dirty    bool      // something was reported on this path
+	stream   string    // PRNG stream of the case ("" = "history")
+	missKind string    // kind reported by checkSeq for a missing record ("" = synced-record-missing)
 }
 
 func (rp *reporter) child(p cutPlan) *reporter {
@@ -40,11 +41,12 @@ func (rp *reporter) child(p cutPlan) *reporter {
 // kinds that demand a record to be returned; not applicable when the synced
 // region itself was corrupted.
 var strongOnly = map[string]bool{
-	"synced-record-missing":                 true,
-	"synced-record-dropped-by-repair":       true,
-	"search-missed-durable-marker":          true,
-	"node-cannot-start-corruption-persists": true,
-	"repaired-file-not-decodable":           false,
+	"synced-record-missing":                                  true,
+	"initial-height-records-hidden-behind-later-endheight-0": true,
+	"synced-record-dropped-by-repair":                        true,
+	"search-missed-durable-marker":                           true,
+	"node-cannot-start-corruption-persists":                  true,
+	"repaired-file-not-decodable":                            false,
 }
 
 type witness struct {
@@ -233,7 +235,11 @@ func (rp *reporter) checkSeq(m *model, reader string, got []canon, foreign []str
 		if rerr != nil {
 			es = "reached EOF after skipping undecodable data (last error: " + rerr.Error() + ")"
 		}
-		rp.violation(m, "synced-record-missing", k, fmt.Sprintf("%s returned %d records and %s, without %s whose sync had returned nil and whose file is still there", reader, len(got), es, r.desc()), nil)
+		kind := "synced-record-missing"
+		if rp.missKind != "" {
+			kind = rp.missKind
+		}
+		rp.violation(m, kind, k, fmt.Sprintf("%s returned %d records and %s, without %s whose sync had returned nil and whose file is still there", reader, len(got), es, r.desc()), nil)
 		return n
 	}
 	return n
@@ -360,7 +366,30 @@ func verifyReaders(lv *live, rp *reporter) (int, error) {
 					return confirmed, harnessErr{name + " reader: " + ferr.Error()}
 				}
 				if may {
-					n := rp.checkSeq(m, "the reader returned by "+name, got, foreign, rerr, minIdx, maxIdx)
+					reqFrom := maxIdx
+					if h == 0 && minIdx != maxIdx {
+						// Several markers 0 on disk.  While the chain is at its initial
+						// height (no later end-height marker on disk) catchupReplay searches
+						// exactly marker 0 and must get every record of the unfinished
+						// height, i.e. everything after the FIRST marker 0.
+						later := false
+						for _, r := range m.J[minIdx+1:] {
+							if r.End && r.H > 0 && m.onDisk(r) {
+								later = true
+								break
+							}
+						}
+						if !later {
+							reqFrom = minIdx
+							rp.missKind = "initial-height-records-hidden-behind-later-endheight-0"
+							c.Count("initial_height_searches_with_several_markers_0", 1)
+						}
+					}
+					if h == 0 {
+						c.Count("searches_for_marker_0_followed_by_read", 1)
+					}
+					n := rp.checkSeq(m, "the reader returned by "+name, got, foreign, rerr, minIdx, reqFrom)
+					rp.missKind = ""
 					c.Count("acked_records_confirmed_after_search", int64(n))
 				}
 			}
